@@ -65,6 +65,14 @@ func runRef(c *core.Ctx, ck *Check, specs []*refSpec) {
 			jobs = append(jobs, job{sp, k})
 		}
 	}
+	// state that builds up (volume.go): runs first, so that the pools below are evaluated in a process whose tables,
+	// rings and interning maps have already filled and wrapped
+	c.Parallel(len(specs), func(w *core.W, i int) {
+		sp := specs[i]
+		for _, v := range volumeRun(c, w, eco.ByName(sp.eco), sp.domain, sp.cmp, func(a, b string) []core.Violation { return evalRefPair(sp, eco.ByName(sp.eco), a, b) }, "ref", c.Scale(560000, 2200000)) {
+			w.Report(v)
+		}
+	})
 	c.Parallel(len(jobs), func(w *core.W, i int) {
 		j := jobs[i]
 		sp := j.sp
@@ -80,6 +88,9 @@ func runRef(c *core.Ctx, ck *Check, specs []*refSpec) {
 		for tries := 0; len(p.Strs) < size && tries < 200; tries++ {
 			var batch []string
 			switch {
+			case j.k%8 == 5 && tries == 0:
+				batch = gen.AlignLadder(sp.eco, r)
+				w.Count("alignment_ladders", 1)
 			case sp.extra != nil && r.IntN(2) == 0:
 				batch = sp.extra(r)
 			case r.IntN(2) == 0:
@@ -102,6 +113,43 @@ func runRef(c *core.Ctx, ck *Check, specs []*refSpec) {
 			}
 		}
 		n := len(p.Vers)
+		if j.k%2 == 1 && n > 0 {
+			// "used" objects: before they are compared, the parsed versions of every other pool are passed through range
+			// membership (grammar ranges, every comparator of the table and every operator-like literal of the sources
+			// with a pool member - whole or cut to a shorter precision - as the bound) and through String(): an
+			// operation that writes to its operand makes the comparisons below disagree with the model
+			var ops []string
+			for o := range CmpTable[sp.eco].ops {
+				ops = append(ops, o)
+			}
+			sortStrings(ops)
+			for k := 0; k < 24; k++ {
+				var txt string
+				switch k % 3 {
+				case 0:
+					txt = gen.RangeOne(sp.eco, r)
+				case 1:
+					txt = gen.SymRange(sp.eco, r, func() string { return boundFrom(p.Strs, r) })
+				default:
+					if len(ops) == 0 {
+						continue
+					}
+					txt = ops[r.IntN(len(ops))] + boundFrom(p.Strs, r)
+					if CmpTable[sp.eco].listOnly {
+						txt += ","
+					}
+				}
+				rg, err, pn := e.SafeNewRange(txt)
+				if pn != nil || err != nil || rg == nil {
+					continue
+				}
+				for x := 0; x < n; x++ {
+					eco.SafeContains(rg, p.Vers[x])
+				}
+				w.Count("pre_use_contains_calls", int64(n))
+			}
+			w.Count("pools_with_used_objects", 1)
+		}
 		perRule := map[string]int{}
 		for a := 0; a < n; a++ {
 			for b := 0; b < n; b++ {
@@ -123,7 +171,18 @@ func runRef(c *core.Ctx, ck *Check, specs []*refSpec) {
 					w.Count("disagreements:"+sp.eco, 1)
 					if perRule[rule] < 4 {
 						perRule[rule]++
-						for _, v := range evalRefPair(sp, e, p.Strs[a], p.Strs[b]) {
+						vs := evalRefPair(sp, e, p.Strs[a], p.Strs[b])
+						if len(vs) == 0 {
+							// freshly parsed objects agree with the model; the pool's objects do not: their state was changed
+							// by an earlier operation (range membership, String, or parsing of other versions)
+							g := "panic"
+							if pn == nil {
+								g = itoa(got)
+							}
+							vs = []core.Violation{{Eco: e.Name, Op: "compare-used", Args: []string{p.Strs[a], p.Strs[b]}, Rule: "used-object:" + rule, Got: g, Want: itoa(want),
+								Detail: "pool objects disagree with the model while fresh parses of the same texts agree"}}
+						}
+						for _, v := range vs {
 							w.Report(v)
 						}
 					}
@@ -177,6 +236,13 @@ func mkRefCheck(id, rule string, assumptions []string, specs []*refSpec) *Check 
 		}
 		for _, sp := range specs {
 			if sp.eco == e.Name {
+				if op == "volume" {
+					v, _ := strconv.Atoi(args[1])
+					return volumeRun(c, c.NewW(), e, sp.domain, sp.cmp, func(a, b string) []core.Violation { return evalRefPair(sp, e, a, b) }, args[0], v)
+				}
+				if op == "compare-used" {
+					return nil // needs the pool's history; the replay file documents the observation
+				}
 				return evalRefPair(sp, e, args[0], args[1])
 			}
 		}
